@@ -1,15 +1,27 @@
 /-
-  C06 — WebP accepted iff RIFF framing and the chunk grammar are exactly right.  (first instalment)
+  C06 — WebP accepted iff RIFF framing and the chunk grammar are exactly right.
+
+  `C06_sound` (soundness, for EVERY stream, both configurations, both kinds of cursor): whatever the model accepts, the
+  independent recogniser `Grammar` accepts — one RIFF/WEBP container whose declared size accounts for every input byte,
+  every chunk inside its parent with zero pad bytes, the chunk sequence VP8 | VP8L | VP8X [ICCP] (ANIM ANMF+ | [ALPH]
+  VP8|VP8L) [EXIF] [XMP] unknown*, flags matching the chunks present, VP8X/ANIM of their exact size, reserved bits zero,
+  ALPH never with VP8L, lossless images and alpha planes valid for the canvas (still) or the frame (animated).  Proved
+  with partial-correctness triples over the three-level reader stack in absolute stream offsets (Lemmas/WebpRel.lean:
+  every reader operation, the tiling of a region by chunks, Open/Closed/Peeked states of a level, the frame loop) and
+  a pure half matching the established facts with the recogniser (Lemmas/WebpGrammarRel.lean).  The proof attempt is
+  what exposed defect F10 (a frame's lossless alpha validated against the canvas dimensions).
 
   Proved here about the reader-stack model (MediaSan/Webp/Sanitize.lean): a read or skip at a nested level never
   crosses the remaining body of an enclosing chunk; consumed bytes are accounted on every enclosing level; the
   pad byte of an odd-sized chunk must be zero; the extracted constants (file-length limit, chunk names) are the
-  ones the model uses.  The equivalence `accepted ↔ Grammar` is evaluated on the real code for every generated
+  ones the model uses.  The converse (`Grammar` with valid lossless payloads ⇒ accepted) and `accepted ⇒ Grammar`
+  again are evaluated on the real code for every generated
   case (exhaustive chunk sequences × 32 flag sets, frame-level sequences, framing/size/padding/truncation
   families, libwebp encoder + muxer output).
 -/
 import MediaSan.Webp.Sanitize
 import MediaSan.Spec.WebpGrammar
+import MediaSan.Lemmas.WebpGrammarRel
 namespace MediaSan.Props.C06
 open MediaSan MediaSan.Webp
 
@@ -50,6 +62,26 @@ theorem C06_constants :
 -- Non-vacuity: the documentation's 26-byte example file is accepted by the model and by the grammar
 def docExample : Bytes :=
   [0x52,0x49,0x46,0x46, 0x14,0,0,0, 0x57,0x45,0x42,0x50, 0x56,0x50,0x38,0x4c, 8,0,0,0, 0x2f,0,0,0,0,0x88,0x88,0x08]
+/-- SOUNDNESS of the WebP container grammar: whatever the model of webpsan accepts, the independent recogniser
+    `Grammar` (Spec/WebpGrammar.lean, written from the property text and the container specification) accepts too —
+    for EVERY stream, both configurations and both kinds of cursor. -/
+theorem C06_sound (s : Stream) (kind : SkipKind) (cfg : Webp.Config) (h : Webp.sanitize s kind cfg = .ok ()) :
+    Spec.WebpGrammar.Grammar s cfg.allowUnknownChunks = true := by
+  have hs := sanitizeP_rel s kind cfg (s.len / 8 + 2)
+  unfold Tri at hs
+  simp only [Webp.sanitize, Webp.sanitizeWith, run_eq_runF] at h
+  cases hr : (Webp.sanitizeP cfg (s.len / 8 + 2)).runF (idealOps s kind) 0 with
+  | ok x =>
+    obtain ⟨a, p⟩ := x
+    rw [hr] at hs h
+    cases a with
+    | none => simp [Outcome.fst] at h
+    | some u => exact grammar_of_facts s _ (hs rfl)
+  | parseErr e => rw [hr] at h; simp [Outcome.fst] at h
+  | ioErr k => rw [hr] at h; simp [Outcome.fst] at h
+  | panic site => rw [hr] at h; simp [Outcome.fst] at h
+  | outOfFuel => rw [hr] at h; simp [Outcome.fst] at h
+
 example : sanitize (Stream.ofBytes docExample) .seekable {} = .ok () := by decide
 example : Spec.WebpGrammar.Grammar (Stream.ofBytes docExample) false = true := by decide
 
